@@ -47,7 +47,7 @@ func H_C14_loop() {
 			for v := 0; v < vNV(); v++ {
 				marks[v], _ = dirtyBefore.Load(uint16(v))
 			}
-			o := ss.deliverReserved(target, key)
+			o := ss.deliverReservedKind(target, key, choose("echo-kind", 3))
 			cover("echo")
 			cur := ss.tracked(target)
 			assert(cur == o, "the echoed write advances the vBucket position")
@@ -82,7 +82,8 @@ func H_C14_inflight() {
 		if !echoed {
 			echoed = true
 			key := append([]byte("_connector:cbgo:"), nondetBytes("keytail", 3)...)
-			spawnEnv(func() { ss.deliverReserved(target, key) })
+			kind := choose("echo-kind", 3)
+			spawnEnv(func() { ss.deliverReservedKind(target, key, kind) })
 			yield()
 		}
 	}
